@@ -396,7 +396,7 @@ fn exec_c17(sc: &C17Scenario) -> Outcome {
             if out.violations.is_empty() {
                 if let Ok(p) = w.start_m("T", &["log".into(), "tail".into(), "--stdout".into()], "none", &[]) {
                     let ctl = w.ctl.as_mut().unwrap();
-                    match ctl.wait_exit(p, Duration::from_millis(6000)) {
+                    match ctl.wait_exit(p, hang) {
                         Some(x) if x.code != Some(0) => {}
                         Some(x) => out.violate("reject_tampered", "log_tail_exit0", format!("{}: log tail exited {:?}", desc, x.code)),
                         None => {
